@@ -271,6 +271,135 @@ int cmd_serial(int argc, char** argv) {
 	return 0;
 }
 
+
+// api: <engine>\t<chart s-expression (ignored)>\t<ops>\t<hex SCXML text>
+//   ops (comma separated): s = one step(0); q = step until IDLE/FINISHED (cap 60); e:<name> = receive();
+//   c = cancel(); r = reset(); d = destroy the interpreter and create a new one; g = getState()
+static void nameAnon(Interpreter& interp) {
+	int k = 0;
+	std::function<void(DOMElement*)> name = [&](DOMElement* e) {
+		std::string ln = X(e->getLocalName()).str();
+		if (ln == "scxml" || ln == "state" || ln == "parallel" || ln == "final" || ln == "history" || ln == "initial") {
+			if (ln != "scxml" && ln != "initial" && !e->hasAttribute(X("id")))
+				e->setAttribute(X("uvname"), X("?" + std::to_string(k)));
+			k++;
+		}
+		for (DOMElement* c = e->getFirstElementChild(); c; c = c->getNextElementSibling()) name(c);
+	};
+	name(interp.getImpl()->getDocument()->getDocumentElement());
+}
+
+// schedule hooks: "<point>=<ms>[:<times>],..." - the thread reaching <point> sleeps <ms> milliseconds (the first <times> times)
+#include "uscxml/interpreter/BasicDelayedEventQueue.h"
+#include <map>
+#include <thread>
+#include <chrono>
+#include <atomic>
+struct HookSpec { int ms; std::atomic<int> left; };
+static std::map<std::string, HookSpec*> g_hooks;
+static void scheduleHook(const char* point) {
+	auto it = g_hooks.find(point);
+	if (it == g_hooks.end()) return;
+	if (it->second->left.fetch_sub(1) <= 0) return;
+	std::this_thread::sleep_for(std::chrono::milliseconds(it->second->ms));
+}
+static void installHooks(const std::string& spec) {
+	if (spec == "-" || spec.empty()) return;
+	for (const std::string& h : uv::split(spec, ',')) {
+		size_t eq = h.find('=');
+		if (eq == std::string::npos) continue;
+		std::string rhs = h.substr(eq + 1);
+		size_t col = rhs.find(':');
+		HookSpec* hs = new HookSpec();
+		hs->ms = atoi(rhs.substr(0, col).c_str());
+		hs->left = col == std::string::npos ? 1000000 : atoi(rhs.substr(col + 1).c_str());
+		g_hooks[h.substr(0, eq)] = hs;
+	}
+	uscxml_verif_schedule_hook = scheduleHook;
+}
+
+static std::string apiOne(const std::string& engine, const std::string& ops, const std::string& xml, int cap) {
+	Rec rec;
+	Interpreter* interp = NULL;
+	try {
+		interp = &makeInterp(engine, xml, rec);
+		nameAnon(*interp);
+		for (const std::string& op : uv::split(ops, ',')) {
+			if (op == "s") {
+				InterpreterState s = interp->step(0);
+				rec.add(std::string("ret:") + retName(s));
+				rec.add(cfgToken(*interp));
+			} else if (op == "q") {
+				runQuiescent(*interp, rec, cap);
+			} else if (op == "c") {
+				interp->cancel(); rec.add("cancel");
+			} else if (op == "r") {
+				interp->reset(); rec.add("reset");
+			} else if (op == "g") {
+				rec.add(std::string("state:") + retName(interp->getState()));
+			} else if (op == "d") {
+				delete interp; interp = NULL;
+				rec.add("destroyed");
+				interp = &makeInterp(engine, xml, rec);
+				nameAnon(*interp);
+			} else if (op.size() > 2 && op[0] == 'e' && op[1] == ':') {
+				interp->receive(Event(op.substr(2), Event::EXTERNAL));
+			} else if (op.size() > 2 && op[0] == 'w' && op[1] == ':') {
+				// wait <ms>: lets timers fire / other threads run
+				std::this_thread::sleep_for(std::chrono::milliseconds(atoi(op.substr(2).c_str())));
+			} else if (op.size() > 2 && op[0] == 'b' && op[1] == ':') {
+				// blocking step with a bound of <ms>
+				InterpreterState s = interp->step(atoi(op.substr(2).c_str()));
+				rec.add(std::string("ret:") + retName(s));
+				rec.add(cfgToken(*interp));
+			} else if (op != "-" && op.size()) {
+				rec.add("bad-op:" + op);
+			}
+		}
+		delete interp; interp = NULL;
+		rec.add("end");
+	} catch (Event e) {
+		rec.add("EXC:" + e.name);
+	} catch (std::exception& e) {
+		rec.add(std::string("EXC:std:") + e.what());
+	} catch (...) {
+		rec.add("EXC:unknown");
+	}
+	return joinToks(rec);
+}
+
+int cmd_api(int argc, char** argv) {
+	std::string line;
+	while (std::getline(std::cin, line)) {
+		std::vector<std::string> f = uv::split(line, '\t');
+		std::string xml;
+		if ((f.size() != 4 && f.size() != 5) || !uv::hexdec(f[3], xml)) { uv::putline("bad-op"); continue; }
+		int fds[2];
+		if (pipe(fds)) { uv::putline("bad-pipe"); continue; }
+		fflush(uv::out);
+		pid_t pid = fork();
+		if (pid == 0) {
+			close(fds[0]);
+			alarm(20);
+			if (f.size() == 5) installHooks(f[4]);
+			std::string out = apiOne(f[0], f[2], xml, 60);
+			size_t off = 0;
+			while (off < out.size()) { ssize_t n = write(fds[1], out.data() + off, out.size() - off); if (n <= 0) break; off += n; }
+			close(fds[1]);
+			_exit(0);
+		}
+		close(fds[1]);
+		std::string out; char buf[65536]; ssize_t n;
+		while ((n = read(fds[0], buf, sizeof buf)) > 0) out.append(buf, n);
+		close(fds[0]);
+		int status = 0; waitpid(pid, &status, 0);
+		if (WIFSIGNALED(status)) out += (out.size() ? " " : "") + std::string("CRASH:") + std::to_string(WTERMSIG(status));
+		else if (WEXITSTATUS(status) != 0) out += (out.size() ? " " : "") + std::string("EXIT:") + std::to_string(WEXITSTATUS(status));
+		uv::putline(out);
+	}
+	return 0;
+}
+
 // each request runs in a forked child so that a crash or hang is a result, not the end of the batch
 int cmd_trace(int argc, char** argv) {
 	int cap = 60;
